@@ -1,12 +1,1679 @@
-//! C18 - not implemented yet
-use crate::common::Report;
+//! C18 - sorting is a stable sort; permutation application and inversion agree.
+//!
+//! Bounded-exhaustive exploration of the real `Sort`, `SortByIntegerKey`, `ApplyPermutation`,
+//! `InversePermutation` code (plaintext evaluator) and of the compiled secure sort / compiled
+//! permutation application (global and three-party execution through E1), against Rust's stable
+//! `sort_by_key` on (key, index) and the direct definition of gather / scatter by a permutation.
+//!
+//! Sections (all verdict-bearing):
+//!  A  plaintext `Sort` on named-tuple tables, all key columns of the bounds below, several layouts
+//!  B  `SortByIntegerKey` custom op (and applications/sort.rs graphs), all integer key types
+//!  C  ApplyPermutation / ApplyInversePermutation / InversePermutation, all permutations
+//!  D  compiled secure sort: compile_context + E1 global / three-party execution
+//!  E  compiled ApplyPermutation with a public permutation
+use crate::common::{hash_str, stable_msg, Report, SplitMix};
+use crate::exec::{Oracle, Plan, RealRandomness};
+use crate::mpcx::{self, Owner};
+use crate::vals;
+use ciphercore_base::applications::sort::{create_binary_sort_graph, create_sort_graph};
+use ciphercore_base::custom_ops::{run_instantiation_pass, CustomOperation};
+use ciphercore_base::data_types::{array_type, ScalarType, Type, BIT};
+use ciphercore_base::data_values::Value;
+use ciphercore_base::errors::Result as CResult;
+use ciphercore_base::graphs::{create_context, Context, Operation};
+use ciphercore_base::inline::inline_ops::{DepthOptimizationLevel, InlineMode};
+use ciphercore_base::ops::integer_key_sort::SortByIntegerKey;
+use rayon::prelude::*;
+use serde_json::{json, Value as J};
+use std::collections::BTreeMap;
 
-pub fn run(_r: &Report) -> i32 {
-    println!("MACHINERY-ERROR property=C18 check not implemented");
-    2
+// ---------------------------------------------------------------------------------------------
+// per-worker result, merged into the Report in enumeration order
+// ---------------------------------------------------------------------------------------------
+
+#[derive(Default)]
+struct Out {
+    counts: BTreeMap<&'static str, u64>,
+    distinct: Vec<u64>,
+    samples: Vec<J>,
+    viols: Vec<(String, String, J)>,
 }
 
-pub fn replay(_r: &Report, _rec: &serde_json::Value) -> i32 {
-    println!("MACHINERY-ERROR property=C18 replay not implemented");
-    2
+impl Out {
+    fn c(&mut self, k: &'static str, n: u64) {
+        *self.counts.entry(k).or_insert(0) += n;
+    }
+    fn viol(&mut self, sig: String, what: String, case: J) {
+        // keep only the first case per signature inside one worker (the Report does the same globally)
+        if self.viols.iter().any(|v| v.0 == sig) {
+            self.c("violating_cases_extra", 1);
+            return;
+        }
+        self.viols.push((sig, what, case));
+    }
+    fn merge(self, r: &Report) {
+        for (k, v) in self.counts.iter() {
+            if *k == "violating_cases_extra" {
+                r.count("violating_cases", *v);
+            } else {
+                r.count(k, *v);
+            }
+        }
+        for h in self.distinct {
+            r.distinct(h);
+        }
+        for s in self.samples {
+            r.sample(s);
+        }
+        for (sig, what, case) in self.viols {
+            r.violation(&sig, &what, case);
+        }
+    }
+}
+
+fn lib<T>(f: impl FnOnce() -> CResult<T>) -> Result<T, String> {
+    match crate::common::catch(f) {
+        Ok(Ok(v)) => Ok(v),
+        Ok(Err(e)) => Err(format!("error: {}", crate::exec::first_line(&e.to_string()))),
+        Err(p) => Err(format!("panic: {}", p)),
+    }
+}
+
+fn st_name(st: &ScalarType) -> String {
+    format!("{}", st)
+}
+
+fn st_by_name(s: &str) -> Option<ScalarType> {
+    vals::ALL_ST.iter().find(|t| st_name(t) == s).cloned()
+}
+
+// ---------------------------------------------------------------------------------------------
+// tables
+// ---------------------------------------------------------------------------------------------
+
+#[derive(Clone)]
+struct Col {
+    name: &'static str,
+    st: ScalarType,
+    /// shape after the row dimension
+    inner: Vec<u64>,
+    /// fill the high bits too (negative for signed types)
+    wide: bool,
+    is_key: bool,
+}
+
+impl Col {
+    fn row_size(&self) -> usize {
+        self.inner.iter().product::<u64>() as usize
+    }
+    fn ty(&self, n: usize) -> Type {
+        let mut shape = vec![n as u64];
+        shape.extend_from_slice(&self.inner);
+        array_type(shape, self.st)
+    }
+    /// a column whose rows are pairwise different, so the row permutation can be read off
+    fn identifies_rows(&self, n: usize) -> bool {
+        if self.is_key {
+            return false;
+        }
+        if self.st == BIT {
+            return (1usize << self.row_size().min(20)) >= n;
+        }
+        true
+    }
+}
+
+fn pcol(name: &'static str, st: ScalarType, inner: &[u64], wide: bool) -> Col {
+    Col { name, st, inner: inner.to_vec(), wide, is_key: false }
+}
+fn kcol(b: u32) -> Col {
+    Col { name: "key", st: BIT, inner: vec![b as u64], wide: false, is_key: true }
+}
+
+const N_LAYOUTS: usize = 4;
+/// layout 0 is the key-only graph of applications/sort.rs (`create_binary_sort_graph`, output = key array)
+fn layout(id: usize, b: u32) -> Vec<Col> {
+    use ScalarType::*;
+    match id {
+        0 => vec![kcol(b)],
+        1 => vec![
+            pcol("idx", U8, &[], false),
+            kcol(b),
+            pcol("pair", I32, &[2], true),
+            pcol("bits", Bit, &[4], false),
+        ],
+        2 => vec![
+            kcol(b),
+            pcol("cube", U64, &[2, 2], true),
+            pcol("big", I128, &[], false),
+            pcol("flag", Bit, &[], false),
+            pcol("w16", U16, &[1], true),
+        ],
+        3 => vec![
+            pcol("tri", I8, &[3], true),
+            pcol("u32c", U32, &[], true),
+            pcol("i64m", I64, &[1, 2], true),
+            pcol("ubig", U128, &[2], false),
+            pcol("i16c", I16, &[], true),
+            kcol(b),
+        ],
+        // 128-bit payloads with the high bits in use
+        4 => vec![kcol(b), pcol("wide_i128", I128, &[], true)],
+        5 => vec![pcol("wide_u128", U128, &[2], true), kcol(b)],
+        // compiled sort with a 128-bit payload holding small values
+        11 => vec![kcol(b), pcol("big", I128, &[], false)],
+        // compiled sort: index column, key in the middle, a 2-d signed payload
+        10 => vec![pcol("idx", U8, &[], false), kcol(b), pcol("pair", I32, &[2], true)],
+        _ => panic!("unknown layout"),
+    }
+}
+
+/// payload element of row i, position j inside the row (residue mod 2^w)
+fn fill(c: &Col, i: usize, j: usize) -> u128 {
+    if c.st == BIT {
+        return ((i >> j) & 1) as u128;
+    }
+    let base = (i * 16 + j + 1) as u128;
+    if c.wide {
+        let w = vals::st_bits(&c.st);
+        (base ^ (0xA5u128 << (w - 8))) & vals::st_mask(&c.st)
+    } else {
+        base
+    }
+}
+
+fn key_bits(rows: &[u64], b: u32) -> Vec<u128> {
+    let mut out = Vec::with_capacity(rows.len() * b as usize);
+    for r in rows {
+        for j in 0..b {
+            out.push(((r >> (b - 1 - j)) & 1) as u128);
+        }
+    }
+    out
+}
+
+/// flat elements of every column (key column from `rows`)
+fn table_elems(cols: &[Col], rows: &[u64], b: u32) -> Vec<Vec<u128>> {
+    let n = rows.len();
+    cols.iter()
+        .map(|c| {
+            if c.is_key {
+                key_bits(rows, b)
+            } else {
+                let m = c.row_size();
+                let mut v = Vec::with_capacity(n * m);
+                for i in 0..n {
+                    for j in 0..m {
+                        v.push(fill(c, i, j));
+                    }
+                }
+                v
+            }
+        })
+        .collect()
+}
+
+fn table_values(cols: &[Col], elems: &[Vec<u128>]) -> Vec<Value> {
+    cols.iter().zip(elems.iter()).map(|(c, e)| vals::arr_value(e, &c.st)).collect()
+}
+
+/// THE ORACLE: Rust's stable sort on (key, index)
+fn stable_order<K: Ord + Copy>(keys: &[K]) -> Vec<usize> {
+    let mut idx: Vec<usize> = (0..keys.len()).collect();
+    idx.sort_by_key(|&i| (keys[i], i));
+    idx
+}
+
+fn permute_rows(e: &[u128], m: usize, order: &[usize]) -> Vec<u128> {
+    let mut out = Vec::with_capacity(e.len());
+    for &i in order {
+        out.extend_from_slice(&e[i * m..(i + 1) * m]);
+    }
+    out
+}
+
+fn build_sort_ctx(layout_id: usize, n: usize, b: u32) -> Result<Context, String> {
+    let cols = layout(layout_id, b);
+    lib(|| {
+        let c = create_context()?;
+        let g = if layout_id == 0 {
+            create_binary_sort_graph(c.clone(), n as u64, b as u64)?
+        } else {
+            let g = c.create_graph()?;
+            let mut elems = vec![];
+            for col in cols.iter() {
+                elems.push((col.name.to_string(), g.input(col.ty(n))?));
+            }
+            let t = g.create_named_tuple(elems)?;
+            t.sort("key".to_string())?.set_as_output()?;
+            g.finalize()?;
+            g
+        };
+        c.set_main_graph(g)?;
+        c.finalize()?;
+        Ok(c)
+    })
+}
+
+/// Compares an output table with the oracle; Err((kind, detail)) classifies the mismatch.
+fn check_table(
+    out: &Value,
+    cols: &[Col],
+    n: usize,
+    in_elems: &[Vec<u128>],
+    order: &[usize],
+    single: bool,
+) -> Result<(), (String, String)> {
+    let colvals: Vec<Value> = if single {
+        vec![out.clone()]
+    } else {
+        match out.to_vector() {
+            Ok(v) => v,
+            Err(_) => return Err(("layout".into(), "output is not a tuple".into())),
+        }
+    };
+    if colvals.len() != cols.len() {
+        return Err(("layout".into(), format!("{} columns instead of {}", colvals.len(), cols.len())));
+    }
+    let mut got: Vec<Vec<u128>> = vec![];
+    for (c, v) in cols.iter().zip(colvals.iter()) {
+        let t = c.ty(n);
+        if !vals::layout_ok(v, &t) {
+            return Err(("layout".into(), format!("column {} does not have the layout of {}", c.name, t)));
+        }
+        got.push(vals::arr_elems(v, &t).unwrap());
+    }
+    let mut all_ok = true;
+    for (ci, c) in cols.iter().enumerate() {
+        if got[ci] != permute_rows(&in_elems[ci], c.row_size(), order) {
+            all_ok = false;
+        }
+    }
+    if all_ok {
+        return Ok(());
+    }
+    // classification
+    let ki = cols.iter().position(|c| c.is_key).unwrap();
+    let b = cols[ki].row_size();
+    let rowkey = |e: &[u128], i: usize| -> u64 {
+        let mut v = 0u64;
+        for j in 0..b {
+            v = (v << 1) | (e[i * b + j] as u64 & 1);
+        }
+        v
+    };
+    let in_keys: Vec<u64> = (0..n).map(|i| rowkey(&in_elems[ki], i)).collect();
+    let out_keys: Vec<u64> = (0..n).map(|i| rowkey(&got[ki], i)).collect();
+    let detail = |extra: &str| -> String {
+        let mut s = format!("{}; input keys {:?}, output keys {:?}", extra, in_keys, out_keys);
+        for (ci, c) in cols.iter().enumerate() {
+            if !c.is_key && got[ci].len() <= 24 {
+                let exp = permute_rows(&in_elems[ci], c.row_size(), order);
+                if exp != got[ci] {
+                    let sh = |v: &Vec<u128>| -> Vec<String> {
+                        v.iter().map(|x| vals::to_signed(*x, &c.st).to_string()).collect()
+                    };
+                    s += &format!("; column {}: expected {:?}, observed {:?}", c.name, sh(&exp), sh(&got[ci]));
+                }
+            }
+        }
+        s
+    };
+    if out_keys.windows(2).any(|w| w[0] > w[1]) {
+        return Err(("not-sorted".into(), detail("output keys are not in non-decreasing order")));
+    }
+    let mut a = in_keys.clone();
+    a.sort_unstable();
+    if a != out_keys {
+        return Err(("keys-changed".into(), detail("output keys are not the multiset of the input keys")));
+    }
+    // read the row permutation off every identifying payload column
+    let mut perm: Option<Vec<usize>> = None;
+    for (ci, c) in cols.iter().enumerate() {
+        if !c.identifies_rows(n) {
+            continue;
+        }
+        let m = c.row_size();
+        let mut p = vec![];
+        for t in 0..n {
+            let row = &got[ci][t * m..(t + 1) * m];
+            match (0..n).find(|&i| &in_elems[ci][i * m..(i + 1) * m] == row) {
+                Some(i) => p.push(i),
+                None => {
+                    let low = |x: &u128| *x & (u64::MAX as u128);
+                    if vals::st_bits(&c.st) == 128
+                        && (0..n).any(|i| in_elems[ci][i * m..(i + 1) * m].iter().map(low).collect::<Vec<_>>() == row)
+                    {
+                        return Err((
+                            "payload-128bit-truncated".to_string(),
+                            detail(&format!("row {} of column {} is an input row cut down to its low 64 bits", t, c.name)),
+                        ));
+                    }
+                    return Err((
+                        format!("payload-corrupt:{}", st_name(&c.st)),
+                        detail(&format!("row {} of column {} is not a row of the input", t, c.name)),
+                    ))
+                }
+            }
+        }
+        let mut q = p.clone();
+        q.sort_unstable();
+        if q != (0..n).collect::<Vec<_>>() {
+            return Err(("rows-lost".into(), detail(&format!("column {} is not a permutation of its input rows", c.name))));
+        }
+        match &perm {
+            None => perm = Some(p),
+            Some(p0) => {
+                if *p0 != p {
+                    return Err((
+                        "columns-disagree".into(),
+                        detail(&format!("column {} was permuted by {:?}, an earlier column by {:?}", c.name, p, p0)),
+                    ));
+                }
+            }
+        }
+    }
+    if let Some(p) = &perm {
+        if (0..n).any(|t| in_keys[p[t]] != out_keys[t]) {
+            return Err(("columns-disagree".into(), detail(&format!("payload rows permuted by {:?} do not follow their keys", p))));
+        }
+        if p != order {
+            return Err((
+                "unstable".into(),
+                detail(&format!("rows with equal keys do not keep their input order: permutation {:?}, stable {:?}", p, order)),
+            ));
+        }
+    }
+    Err(("mismatch".into(), detail("a column differs from the stable sort")))
+}
+
+// ---------------------------------------------------------------------------------------------
+// A. plaintext Sort
+// ---------------------------------------------------------------------------------------------
+
+#[derive(Clone)]
+enum KeyGen {
+    /// all 2^(n*b) key columns
+    All,
+    /// all |alphabet|^n key columns with rows from an explicit alphabet
+    Alpha(Vec<u64>),
+}
+
+impl KeyGen {
+    fn size(&self, n: usize, b: u32) -> u64 {
+        match self {
+            KeyGen::All => 1u64 << (n as u32 * b),
+            KeyGen::Alpha(a) => (a.len() as u64).pow(n as u32),
+        }
+    }
+    fn rows(&self, k: u64, n: usize, b: u32) -> Vec<u64> {
+        match self {
+            KeyGen::All => (0..n).map(|i| (k >> (i as u32 * b)) & ((1u64 << b) - 1)).collect(),
+            KeyGen::Alpha(a) => {
+                let m = a.len() as u64;
+                let mut k = k;
+                (0..n)
+                    .map(|_| {
+                        let v = a[(k % m) as usize];
+                        k /= m;
+                        v
+                    })
+                    .collect()
+            }
+        }
+    }
+}
+
+/// explicit row alphabet for wide keys: every position of a first difference is represented
+fn row_alphabet(b: u32) -> Vec<u64> {
+    let full = (1u64 << b) - 1;
+    let mut a = vec![0, full];
+    for j in 0..b {
+        a.push(1u64 << j); // a single one
+        a.push(full & !(full >> (j + 1))); // j+1 leading ones
+    }
+    let mut alt = 0u64;
+    for j in 0..b {
+        if j % 2 == 0 {
+            alt |= 1 << j;
+        }
+    }
+    a.push(alt);
+    a.push(full & !alt);
+    a.sort_unstable();
+    a.dedup();
+    a
+}
+
+struct SortWork {
+    layout: usize,
+    n: usize,
+    b: u32,
+    gen: KeyGen,
+    start: u64,
+    end: u64,
+}
+
+fn sort_plain_case(ctx: &Context, layout_id: usize, cols: &[Col], rows: &[u64], b: u32) -> Result<(), (String, String)> {
+    let n = rows.len();
+    let elems = table_elems(cols, rows, b);
+    let inputs = table_values(cols, &elems);
+    let order = stable_order(rows);
+    match mpcx::eval_plain(ctx, &inputs, 1) {
+        Err(m) => Err((format!("fails:{}", stable_msg(&m)), m)),
+        Ok(out) => check_table(&out, cols, n, &elems, &order, layout_id == 0),
+    }
+}
+
+fn run_sort_work(w: &SortWork) -> Out {
+    let mut o = Out::default();
+    let cols = layout(w.layout, w.b);
+    let ctx = match build_sort_ctx(w.layout, w.n, w.b) {
+        Ok(c) => c,
+        Err(m) => {
+            o.viol(
+                format!("C18:Sort:plain:build:{}", stable_msg(&m)),
+                format!("cannot build the Sort graph (layout {}, n={}, b={}): {}", w.layout, w.n, w.b, m),
+                json!({"section": "sort-plain", "layout": w.layout, "n": w.n, "b": w.b, "rows": J::Null}),
+            );
+            return o;
+        }
+    };
+    for k in w.start..w.end {
+        let rows = w.gen.rows(k, w.n, w.b);
+        o.c("evaluations", 1);
+        o.c("sort_plain_cases", 1);
+        let mut s = rows.clone();
+        s.sort_unstable();
+        let dup = s.windows(2).any(|x| x[0] == x[1]);
+        let unsorted = rows.windows(2).any(|x| x[0] > x[1]);
+        if dup {
+            o.c("sort_plain_with_duplicate_keys", 1);
+        }
+        if unsorted {
+            o.c("sort_plain_unsorted_input", 1);
+        }
+        if dup && unsorted {
+            o.c("sort_plain_dup_and_unsorted", 1);
+        }
+        if w.b % 2 == 1 {
+            o.c("sort_plain_odd_width", 1);
+        }
+        if w.n >= 2 {
+            o.distinct.push(hash_str(&format!("A/{}/{}/{}/{:?}", w.layout, w.n, w.b, rows)));
+        }
+        if k == 34 && w.layout == 1 && w.n == 3 && w.b == 2 && matches!(w.gen, KeyGen::All) {
+            let (_, expected, _, order) = sort_expected(&cols, &rows, w.b, false);
+            let t = ciphercore_base::data_types::tuple_type(cols.iter().map(|c| c.ty(w.n)).collect());
+            o.samples.push(json!({"section": "sort-plain", "layout": w.layout, "n": w.n, "b": w.b, "rows": rows,
+                "columns": cols.iter().map(|c| format!("{}: {}", c.name, c.ty(w.n))).collect::<Vec<_>>(),
+                "stable_order": order, "expected_table": vals::show(&expected, &t)}));
+        }
+        if let Err((kind, detail)) = sort_plain_case(&ctx, w.layout, &cols, &rows, w.b) {
+            o.viol(
+                format!("C18:Sort:plain:{}", kind),
+                format!("plaintext Sort, layout {} n={} b={} key rows {:?}: {}", w.layout, w.n, w.b, rows, detail),
+                json!({"section": "sort-plain", "layout": w.layout, "n": w.n, "b": w.b, "rows": rows}),
+            );
+        }
+    }
+    o
+}
+
+fn sort_plain_work(thorough: bool) -> (Vec<SortWork>, J) {
+    const CHUNK: u64 = 2048;
+    let mut ws = vec![];
+    let mut push = |layout: usize, n: usize, b: u32, gen: KeyGen| {
+        let size = gen.size(n, b);
+        let mut s = 0;
+        while s < size {
+            let e = (s + CHUNK).min(size);
+            ws.push(SortWork { layout, n, b, gen: gen.clone(), start: s, end: e });
+            s = e;
+        }
+    };
+    let mut bounds = vec![];
+    // A1: n <= 5 x b <= 3, A2: n <= 8 x b <= 2, all keys; every layout
+    for layout in 0..N_LAYOUTS {
+        for n in 1..=8usize {
+            for b in 1..=3u32 {
+                let in_a1 = n <= 5;
+                let in_a2 = b <= 2;
+                if !(in_a1 || in_a2) {
+                    continue;
+                }
+                // quick tier: the two biggest spaces only with the main layout 1
+                if !thorough && layout != 1 && (n as u32 * b) > 12 {
+                    continue;
+                }
+                push(layout, n, b, KeyGen::All);
+            }
+        }
+    }
+    bounds.push(json!("A1/A2: all key columns for n<=5 x b<=3 and n<=8 x b<=2; layouts 0..3 (quick: layouts 0,2,3 only where n*b<=12)"));
+    // A3: widths 4..=10 with n <= 3: all keys while n*b <= 16 (quick 12), explicit row alphabet beyond
+    let all_limit = if thorough { 16 } else { 12 };
+    for layout in [1usize, 0] {
+        for b in 4..=10u32 {
+            for n in 1..=3usize {
+                if n as u32 * b <= all_limit {
+                    push(layout, n, b, KeyGen::All);
+                } else {
+                    push(layout, n, b, KeyGen::Alpha(row_alphabet(b)));
+                }
+            }
+        }
+    }
+    bounds.push(json!(format!(
+        "A3: widths 4..=10, n<=3, layouts 1 and 0: all keys while n*b<={}, otherwise all tuples over the row alphabet (0, all-ones, single ones, leading-ones prefixes, two alternating patterns)",
+        all_limit
+    )));
+    // A4: more rows (up to 12) with few distinct keys: all key columns over {0,1} (b=1) and over 3 values of width 3
+    for n in 9..=12usize {
+        push(1, n, 1, KeyGen::All);
+    }
+    if thorough {
+        for n in 6..=9usize {
+            push(1, n, 3, KeyGen::Alpha(vec![1, 4, 6]));
+        }
+    }
+    // A5: 128-bit payload columns whose high 64 bits are in use
+    for layout in [4usize, 5] {
+        for n in 1..=3usize {
+            for b in 1..=2u32 {
+                push(layout, n, b, KeyGen::All);
+            }
+        }
+    }
+    bounds.push(json!("A5: i128[n] / u128[n,2] payload columns with the high bits set, all keys for n<=3 x b<=2"));
+    bounds.push(json!("A4: n=9..=12 x b=1 all keys (layout 1); thorough: n=6..=9, b=3, rows from {001,100,110}"));
+    (ws, J::Array(bounds))
+}
+
+// ---------------------------------------------------------------------------------------------
+// B. SortByIntegerKey
+// ---------------------------------------------------------------------------------------------
+
+fn int_alphabet(st: &ScalarType) -> Vec<u128> {
+    if *st == BIT {
+        return vec![0, 1];
+    }
+    let w = vals::st_bits(st);
+    let m = vals::st_mask(st);
+    let half = 1u128 << (w - 1);
+    if vals::st_signed(st) {
+        // min, -1, 0, 1, max  (as residues)
+        vec![half, m, 0, 1, half - 1]
+    } else {
+        vec![0, 1, half - 1, half, m]
+    }
+}
+
+/// variant 0: `create_sort_graph` of applications/sort.rs (key only, output = key array);
+/// variant 1: table (idx: u8[n], key: st[n]) through the custom operation, whole table is the output
+fn build_intkey_ctx(variant: usize, n: usize, st: ScalarType) -> Result<Context, String> {
+    lib(|| {
+        let c = create_context()?;
+        let g = if variant == 0 {
+            create_sort_graph(c.clone(), n as u64, st)?
+        } else {
+            let g = c.create_graph()?;
+            let idx = g.input(array_type(vec![n as u64], ScalarType::U8))?;
+            let key = g.input(array_type(vec![n as u64], st))?;
+            let t = g.create_named_tuple(vec![("idx".to_string(), idx), ("key".to_string(), key)])?;
+            let s = g.custom_op(CustomOperation::new(SortByIntegerKey { key: "key".to_string() }), vec![t])?;
+            s.set_as_output()?;
+            g.finalize()?;
+            g
+        };
+        c.set_main_graph(g)?;
+        c.finalize()?;
+        let m = run_instantiation_pass(c)?;
+        Ok(m.get_context())
+    })
+}
+
+fn int_order(keys: &[u128], st: &ScalarType) -> Vec<usize> {
+    if vals::st_signed(st) {
+        let k: Vec<i128> = keys.iter().map(|x| vals::to_signed(*x, st)).collect();
+        stable_order(&k)
+    } else {
+        stable_order(keys)
+    }
+}
+
+fn intkey_case(ctx: &Context, variant: usize, st: &ScalarType, keys: &[u128]) -> Result<(), (String, String)> {
+    let n = keys.len();
+    let order = int_order(keys, st);
+    let kt = array_type(vec![n as u64], *st);
+    let it = array_type(vec![n as u64], ScalarType::U8);
+    let idx: Vec<u128> = (0..n as u128).collect();
+    let inputs = if variant == 0 {
+        vec![vals::arr_value(keys, st)]
+    } else {
+        vec![vals::arr_value(&idx, &ScalarType::U8), vals::arr_value(keys, st)]
+    };
+    let out = match mpcx::eval_plain(ctx, &inputs, 1) {
+        Ok(v) => v,
+        Err(m) => return Err((format!("fails:{}", stable_msg(&m)), m)),
+    };
+    let (out_idx, out_key) = if variant == 0 {
+        (None, out)
+    } else {
+        match out.to_vector() {
+            Ok(v) if v.len() == 2 => (Some(v[0].clone()), v[1].clone()),
+            _ => return Err(("layout".into(), "output is not a 2-column table".into())),
+        }
+    };
+    if !vals::layout_ok(&out_key, &kt) {
+        return Err(("layout".into(), format!("key column does not have the layout of {}", kt)));
+    }
+    let got = vals::arr_elems(&out_key, &kt).unwrap();
+    let exp = permute_rows(keys, 1, &order);
+    let show = |v: &[u128]| -> Vec<String> { v.iter().map(|x| vals::to_signed(*x, st).to_string()).collect() };
+    if got != exp {
+        let mut a = got.clone();
+        let mut b = keys.to_vec();
+        a.sort_unstable();
+        b.sort_unstable();
+        let kind = if a != b { "keys-changed" } else { "not-sorted" };
+        return Err((
+            kind.into(),
+            format!("keys {:?}: expected {:?}, observed {:?}", show(keys), show(&exp), show(&got)),
+        ));
+    }
+    if let Some(oi) = out_idx {
+        if !vals::layout_ok(&oi, &it) {
+            return Err(("layout".into(), "idx column has a wrong layout".into()));
+        }
+        let gi: Vec<usize> = vals::arr_elems(&oi, &it).unwrap().iter().map(|x| *x as usize).collect();
+        if gi != order {
+            let mut q = gi.clone();
+            q.sort_unstable();
+            let kind = if q != (0..n).collect::<Vec<_>>() {
+                "rows-lost"
+            } else if (0..n).any(|t| keys[gi[t]] != exp[t]) {
+                "columns-disagree"
+            } else {
+                "unstable"
+            };
+            return Err((
+                kind.into(),
+                format!("keys {:?}: payload row order {:?}, stable order {:?}", show(keys), gi, order),
+            ));
+        }
+    }
+    Ok(())
+}
+
+struct IntWork {
+    variant: usize,
+    st: ScalarType,
+    n: usize,
+    /// explicit key columns
+    cases: Vec<Vec<u128>>,
+    ladder: bool,
+}
+
+fn ladder_cases(st: &ScalarType) -> Vec<Vec<u128>> {
+    if *st == BIT {
+        return vec![vec![1, 0, 1, 1, 0, 0, 1, 0, 0, 1, 1, 0]];
+    }
+    let w = vals::st_bits(st);
+    let mut pos: Vec<u32> = vec![0, 1, 2, w / 2 - 1, w / 2, w - 3, w - 2, w - 1];
+    pos.sort_unstable();
+    pos.dedup();
+    let mut vals_: Vec<u128> = pos.iter().map(|p| 1u128 << p).collect();
+    vals_.push(0);
+    vals_.push(vals::st_mask(st));
+    // duplicates of two of them, so that stability is exercised as well
+    vals_.push(1u128 << (w / 2));
+    vals_.push(0);
+    let n = vals_.len();
+    let asc = vals_.clone();
+    let desc: Vec<u128> = vals_.iter().rev().cloned().collect();
+    let riffle: Vec<u128> = (0..n).step_by(2).chain((1..n).step_by(2)).map(|i| vals_[i]).collect();
+    let rot: Vec<u128> = (0..n).map(|i| vals_[(i * 5 + 3) % n]).collect();
+    vec![asc, desc, riffle, rot]
+}
+
+fn intkey_work(thorough: bool) -> (Vec<IntWork>, J) {
+    let mut ws = vec![];
+    let nmax = 5usize;
+    for st in vals::ALL_ST.iter() {
+        let a = int_alphabet(st);
+        for variant in [1usize, 0] {
+            for n in 1..=nmax {
+                // quick: the key-only application graph up to n = 4
+                if !thorough && variant == 0 && n > 4 {
+                    continue;
+                }
+                let total = (a.len() as u64).pow(n as u32);
+                let mut cases = vec![];
+                for k in 0..total {
+                    let mut kk = k;
+                    let mut v = vec![];
+                    for _ in 0..n {
+                        v.push(a[(kk % a.len() as u64) as usize]);
+                        kk /= a.len() as u64;
+                    }
+                    cases.push(v);
+                }
+                for ch in cases.chunks(512) {
+                    ws.push(IntWork { variant, st: *st, n, cases: ch.to_vec(), ladder: false });
+                }
+            }
+            for c in ladder_cases(st) {
+                ws.push(IntWork { variant, st: *st, n: c.len(), cases: vec![c], ladder: true });
+            }
+        }
+    }
+    let bounds = json!(format!(
+        "B: all 11 scalar types as key; all key columns of length n<=5 over the alphabet (unsigned: 0,1,2^(w-1)-1,2^(w-1),2^w-1; signed: min,-1,0,1,max; bit: 0,1) for the (idx,key) table, n<={} for create_sort_graph; plus 4 one-hot ladder columns (<=12 rows) per type and variant",
+        if thorough { 5 } else { 4 }
+    ));
+    (ws, bounds)
+}
+
+fn run_int_work(w: &IntWork) -> Out {
+    let mut o = Out::default();
+    let ctx = match build_intkey_ctx(w.variant, w.n, w.st) {
+        Ok(c) => c,
+        Err(m) => {
+            o.viol(
+                format!("C18:SortByIntegerKey:build:{}:{}", st_name(&w.st), stable_msg(&m)),
+                format!("cannot build/instantiate SortByIntegerKey for key type {} n={}: {}", st_name(&w.st), w.n, m),
+                json!({"section": "intkey", "variant": w.variant, "st": st_name(&w.st), "keys": J::Null, "n": w.n}),
+            );
+            return o;
+        }
+    };
+    for keys in w.cases.iter() {
+        o.c("evaluations", 1);
+        o.c(if w.ladder { "intkey_ladder_cases" } else { "intkey_cases" }, 1);
+        if vals::st_signed(&w.st) {
+            o.c("intkey_signed_cases", 1);
+            let neg = keys.iter().any(|k| vals::to_signed(*k, &w.st) < 0);
+            let pos = keys.iter().any(|k| vals::to_signed(*k, &w.st) >= 0);
+            if neg && pos {
+                o.c("intkey_signed_mixed_sign", 1);
+            }
+        }
+        let ord = int_order(keys, &w.st);
+        if ord.windows(2).any(|x| x[0] > x[1]) {
+            o.c("intkey_unsorted_input", 1);
+        }
+        if w.n >= 2 {
+            o.distinct.push(hash_str(&format!("B/{}/{}/{:?}", w.variant, st_name(&w.st), keys)));
+        }
+        if w.n == 3 && w.variant == 1 && w.st == ScalarType::I8 && keys == &vec![1u128, 0xFF, 0x80] {
+            o.samples.push(json!({"section": "intkey", "st": "i8", "keys": ["1", "-1", "-128"], "stable_order": ord}));
+        }
+        if let Err((kind, detail)) = intkey_case(&ctx, w.variant, &w.st, keys) {
+            let class = if vals::st_signed(&w.st) { "signed" } else if w.st == BIT { "bit" } else { "unsigned" };
+            o.viol(
+                format!("C18:SortByIntegerKey:{}{}:{}", class, vals::st_bits(&w.st), kind),
+                format!(
+                    "SortByIntegerKey ({}), key type {}: {}",
+                    if w.variant == 0 { "create_sort_graph" } else { "table idx,key" },
+                    st_name(&w.st),
+                    detail
+                ),
+                json!({"section": "intkey", "variant": w.variant, "st": st_name(&w.st), "n": w.n,
+                       "keys": keys.iter().map(|k| k.to_string()).collect::<Vec<_>>()}),
+            );
+        }
+    }
+    o
+}
+
+// ---------------------------------------------------------------------------------------------
+// C. permutations (plaintext)
+// ---------------------------------------------------------------------------------------------
+
+fn all_perms(n: usize) -> Vec<Vec<usize>> {
+    // lexicographic order, identity first
+    fn rec(n: usize, cur: &mut Vec<usize>, used: &mut Vec<bool>, out: &mut Vec<Vec<usize>>) {
+        if cur.len() == n {
+            out.push(cur.clone());
+            return;
+        }
+        for i in 0..n {
+            if !used[i] {
+                used[i] = true;
+                cur.push(i);
+                rec(n, cur, used, out);
+                cur.pop();
+                used[i] = false;
+            }
+        }
+    }
+    let mut out = vec![];
+    rec(n, &mut vec![], &mut vec![false; n], &mut out);
+    out
+}
+
+const PERM_INDEX_TYPES: [ScalarType; 4] = [ScalarType::U64, ScalarType::U8, ScalarType::U16, ScalarType::U32];
+
+fn perm_array_cols() -> Vec<Col> {
+    use ScalarType::*;
+    vec![
+        pcol("a_i32", I32, &[], true),
+        pcol("a_u64x2", U64, &[2], true),
+        pcol("a_bit3", Bit, &[3], false),
+        pcol("a_i128", I128, &[], false),
+        pcol("a_u8x2x2", U8, &[2, 2], true),
+        pcol("a_i16x1", I16, &[1], true),
+        pcol("w_i128", I128, &[], true),
+        pcol("w_u128x2", U128, &[2], true),
+    ]
+}
+
+const PERM_OUTPUTS: [&str; 7] = [
+    "apply_permutation(a,p)",
+    "apply_inverse_permutation(a,p)",
+    "apply_inverse_permutation(apply_permutation(a,p),p)",
+    "apply_permutation(apply_inverse_permutation(a,p),p)",
+    "inverse_permutation(p)",
+    "inverse_permutation(inverse_permutation(p))",
+    "apply_permutation(a,inverse_permutation(p))",
+];
+
+fn build_perm_ctx(n: usize, col: &Col, ist: ScalarType) -> Result<Context, String> {
+    lib(|| {
+        let c = create_context()?;
+        let g = c.create_graph()?;
+        let a = g.input(col.ty(n))?;
+        let p = g.input(array_type(vec![n as u64], ist))?;
+        let ap = g.apply_permutation(a.clone(), p.clone())?;
+        let aip = g.apply_inverse_permutation(a.clone(), p.clone())?;
+        let r1 = g.apply_inverse_permutation(ap.clone(), p.clone())?;
+        let r2 = g.apply_permutation(aip.clone(), p.clone())?;
+        let inv = g.inverse_permutation(p.clone())?;
+        let invinv = g.inverse_permutation(inv.clone())?;
+        let apinv = g.apply_permutation(a, inv.clone())?;
+        g.create_tuple(vec![ap, aip, r1, r2, inv, invinv, apinv])?.set_as_output()?;
+        g.finalize()?;
+        c.set_main_graph(g)?;
+        c.finalize()?;
+        Ok(c)
+    })
+}
+
+fn gather_rows(e: &[u128], m: usize, p: &[usize]) -> Vec<u128> {
+    // out[i] = a[p[i]]
+    permute_rows(e, m, p)
+}
+fn scatter_rows(e: &[u128], m: usize, p: &[usize]) -> Vec<u128> {
+    // out[p[i]] = a[i]
+    let mut out = vec![0u128; e.len()];
+    for (i, &t) in p.iter().enumerate() {
+        out[t * m..(t + 1) * m].copy_from_slice(&e[i * m..(i + 1) * m]);
+    }
+    out
+}
+
+fn perm_case(ctx: &Context, col: &Col, ist: &ScalarType, p: &[usize]) -> Result<(), (String, String)> {
+    let n = p.len();
+    let m = col.row_size();
+    let a: Vec<u128> = (0..n).flat_map(|i| (0..m).map(move |j| (i, j))).map(|(i, j)| fill(col, i, j)).collect();
+    let pe: Vec<u128> = p.iter().map(|x| *x as u128).collect();
+    let mut inv = vec![0u128; n];
+    for (j, &t) in p.iter().enumerate() {
+        inv[t] = j as u128; // output[i] = j if input[j] = i
+    }
+    let at = col.ty(n);
+    let pt = array_type(vec![n as u64], *ist);
+    let inputs = vec![vals::arr_value(&a, &col.st), vals::arr_value(&pe, ist)];
+    let out = match mpcx::eval_plain(ctx, &inputs, 1) {
+        Ok(v) => v,
+        Err(msg) => return Err((format!("fails:{}", stable_msg(&msg)), msg)),
+    };
+    let vs = match out.to_vector() {
+        Ok(v) if v.len() == 7 => v,
+        _ => return Err(("layout".into(), "output is not a 7-tuple".into())),
+    };
+    let expected: [(&Type, Vec<u128>); 7] = [
+        (&at, gather_rows(&a, m, p)),
+        (&at, scatter_rows(&a, m, p)),
+        (&at, a.clone()),
+        (&at, a.clone()),
+        (&pt, inv.clone()),
+        (&pt, pe.clone()),
+        (&at, scatter_rows(&a, m, p)),
+    ];
+    let kinds = ["apply", "apply-inverse", "roundtrip", "roundtrip-inverse-first", "inverse", "inverse-involution", "apply-of-inverse"];
+    for k in 0..7 {
+        let (t, exp) = &expected[k];
+        if !vals::layout_ok(&vs[k], t) {
+            return Err((format!("{}:layout", kinds[k]), format!("{} does not have the layout of {}", PERM_OUTPUTS[k], t)));
+        }
+        let got = vals::arr_elems(&vs[k], t).unwrap();
+        if &got != exp {
+            let st = t.get_scalar_type();
+            let sh = |v: &Vec<u128>| -> Vec<String> { v.iter().map(|x| vals::to_signed(*x, &st).to_string()).collect() };
+            let low: Vec<u128> = exp.iter().map(|x| *x & (u64::MAX as u128)).collect();
+            let kind = if vals::st_bits(&st) == 128 && got == low {
+                "128bit-truncated".to_string()
+            } else {
+                kinds[k].to_string()
+            };
+            return Err((
+                kind,
+                format!("p={:?}, a={:?}: {} expected {:?}, observed {:?}", p, sh(&a), PERM_OUTPUTS[k], sh(exp), sh(&got)),
+            ));
+        }
+    }
+    Ok(())
+}
+
+struct PermWork {
+    n: usize,
+    col: Col,
+    ist: ScalarType,
+}
+
+fn run_perm_work(w: &PermWork) -> Out {
+    let mut o = Out::default();
+    let case0 = json!({"section": "perm", "n": w.n, "col": w.col.name, "index_type": st_name(&w.ist)});
+    let ctx = match build_perm_ctx(w.n, &w.col, w.ist) {
+        Ok(c) => c,
+        Err(m) => {
+            let mut case = case0.clone();
+            case["p"] = J::Null;
+            o.viol(
+                format!("C18:Permutation:build:{}", stable_msg(&m)),
+                format!("cannot build the permutation graph for {} / index type {}: {}", w.col.ty(w.n), st_name(&w.ist), m),
+                case,
+            );
+            return o;
+        }
+    };
+    for p in all_perms(w.n) {
+        o.c("evaluations", 1);
+        o.c("perm_cases", 1);
+        let is_id = p.iter().enumerate().all(|(i, x)| i == *x);
+        let mut involution = true;
+        for (i, &t) in p.iter().enumerate() {
+            if p[t] != i {
+                involution = false;
+            }
+        }
+        if !is_id {
+            o.c("perm_non_identity", 1);
+        }
+        if !involution {
+            // only here apply and apply-inverse differ
+            o.c("perm_not_self_inverse", 1);
+        }
+        if w.n >= 2 {
+            o.distinct.push(hash_str(&format!("C/{}/{}/{:?}", w.col.name, st_name(&w.ist), p)));
+        }
+        if w.n == 3 && p == vec![1, 2, 0] && w.col.name == "a_i32" && w.ist == ScalarType::U64 {
+            o.samples.push(json!({"section": "perm", "col": "a_i32", "p": p, "inverse": [2, 0, 1]}));
+        }
+        if let Err((kind, detail)) = perm_case(&ctx, &w.col, &w.ist, &p) {
+            let mut case = case0.clone();
+            case["p"] = json!(p);
+            o.viol(
+                format!("C18:Permutation:plain:{}", kind),
+                format!("array {} index type {}: {}", w.col.ty(w.n), st_name(&w.ist), detail),
+                case,
+            );
+        }
+    }
+    o
+}
+
+// ---------------------------------------------------------------------------------------------
+// D. compiled secure sort  /  E. compiled ApplyPermutation (public permutation)
+// ---------------------------------------------------------------------------------------------
+
+/// scripted PermutationFromPRF answers: every random permutation is the identity / the reversal
+struct FixedPerms {
+    reverse: bool,
+}
+impl Oracle for FixedPerms {
+    fn perm_prf(&mut self, _party: usize, _idx: usize, _key: &[u8], _iv: u64, n: u64) -> Option<Value> {
+        let v: Vec<u128> = if self.reverse { (0..n as u128).rev().collect() } else { (0..n as u128).collect() };
+        Some(vals::arr_value(&v, &ScalarType::U64))
+    }
+}
+
+#[derive(Clone, Copy, PartialEq, Eq, Debug)]
+enum Tape {
+    Real,
+    Identity,
+    Reverse,
+}
+impl Tape {
+    fn name(&self) -> &'static str {
+        match self {
+            Tape::Real => "real",
+            Tape::Identity => "perms-identity",
+            Tape::Reverse => "perms-reverse",
+        }
+    }
+    fn by_name(s: &str) -> Tape {
+        match s {
+            "perms-identity" => Tape::Identity,
+            "perms-reverse" => Tape::Reverse,
+            _ => Tape::Real,
+        }
+    }
+}
+
+fn owner_by_name(s: &str) -> Owner {
+    match s {
+        "P0" => Owner::P(0),
+        "P1" => Owner::P(1),
+        "P2" => Owner::P(2),
+        "pub" => Owner::Public,
+        _ => Owner::Shared,
+    }
+}
+
+fn mode_by_name(s: &str) -> InlineMode {
+    match s {
+        "depth-default" => InlineMode::DepthOptimized(DepthOptimizationLevel::Default),
+        "depth-extreme" => InlineMode::DepthOptimized(DepthOptimizationLevel::Extreme),
+        _ => InlineMode::Simple,
+    }
+}
+
+/// a compiled configuration: the compiled context travels to the workers as a string, every worker
+/// deserializes its own copy (no AtomicRefCell shared between threads)
+#[derive(Clone)]
+struct Compiled {
+    what: &'static str, // "sort" | "perm"
+    layout: usize,      // sort: table layout; perm: 0 = apply, 1 = apply inverse
+    n: usize,
+    b: u32,
+    owners: Vec<Owner>,
+    outs: Vec<u8>,
+    mode: &'static str,
+    ser: Result<String, String>,
+}
+
+impl Compiled {
+    fn cfg_json(&self) -> J {
+        json!({"what": self.what, "layout": self.layout, "n": self.n, "b": self.b,
+               "owners": self.owners.iter().map(|o| o.name()).collect::<Vec<_>>(),
+               "outs": self.outs, "mode": self.mode})
+    }
+    fn owner_class(&self) -> String {
+        let mut s: Vec<String> = self.owners.iter().map(|o| match o {
+            Owner::P(_) => "party".to_string(),
+            x => x.name(),
+        }).collect();
+        s.dedup();
+        s.join("+")
+    }
+}
+
+fn perm_compiled_col() -> Col {
+    pcol("a", ScalarType::I32, &[2], true)
+}
+
+fn build_perm_apply_ctx(n: usize, inverse: bool) -> Result<Context, String> {
+    let col = perm_compiled_col();
+    lib(|| {
+        let c = create_context()?;
+        let g = c.create_graph()?;
+        let a = g.input(col.ty(n))?;
+        let p = g.input(array_type(vec![n as u64], ScalarType::U64))?;
+        let o = if inverse { g.apply_inverse_permutation(a, p)? } else { g.apply_permutation(a, p)? };
+        o.set_as_output()?;
+        g.finalize()?;
+        c.set_main_graph(g)?;
+        c.finalize()?;
+        Ok(c)
+    })
+}
+
+fn source_ctx(what: &str, layout_id: usize, n: usize, b: u32) -> Result<Context, String> {
+    if what == "sort" {
+        build_sort_ctx(layout_id, n, b)
+    } else {
+        build_perm_apply_ctx(n, layout_id == 1)
+    }
+}
+
+fn compile_cfg(what: &'static str, layout_id: usize, n: usize, b: u32, owners: Vec<Owner>, outs: Vec<u8>, mode: &'static str) -> Compiled {
+    let ser = source_ctx(what, layout_id, n, b).and_then(|src| {
+        let c = mpcx::compile(&src, &owners, &outs, &mode_by_name(mode))?;
+        serde_json::to_string(&c).map_err(|e| format!("serialize: {}", e))
+    });
+    Compiled { what, layout: layout_id, n, b, owners, outs, mode, ser }
+}
+
+struct CompiledRunner {
+    /// keeps the deserialized compiled context alive (graphs and nodes only hold weak references to it)
+    _compiled: Context,
+    plan: Plan,
+    src: Context,
+    in_types: Vec<Type>,
+    out_type: Type,
+    perm_nodes: u64,
+    nodes: u64,
+}
+
+fn make_runner(cfg: &Compiled) -> Result<CompiledRunner, String> {
+    let ser = cfg.ser.clone()?;
+    let ctx: Context = serde_json::from_str(&ser).map_err(|e| format!("deserialize: {}", e))?;
+    let plan = Plan::of_context(&ctx)?;
+    let src = source_ctx(cfg.what, cfg.layout, cfg.n, cfg.b)?;
+    let in_types = mpcx::input_types(&src);
+    let out_type = mpcx::output_type(&src);
+    let perm_nodes = plan.nodes.iter().filter(|n| matches!(n.op, Operation::PermutationFromPRF(_, _))).count() as u64;
+    let nodes = plan.nodes.len() as u64;
+    Ok(CompiledRunner { _compiled: ctx, plan, src, in_types, out_type, perm_nodes, nodes })
+}
+
+struct CompiledResult {
+    /// Err((kind, detail))
+    verdict: Result<(), (String, String)>,
+    sends: u64,
+    party_steps: u64,
+    poisoned_sends: u64,
+}
+
+/// One execution of a compiled graph on plaintext inputs `plain` with expected output `expected`.
+fn exec_compiled(
+    run: &CompiledRunner,
+    cfg: &Compiled,
+    plain: &[Value],
+    expected: &Value,
+    three: bool,
+    tape: Tape,
+    seed: u64,
+    junk_kind: u64,
+) -> CompiledResult {
+    let mut sm = SplitMix(seed ^ 0x5AFE_C18);
+    let mut share_src = SplitMix(seed ^ 0x51A2E5);
+    let mut share_bytes = || share_src.next() as u8;
+    let mut junk = || match junk_kind % 3 {
+        0 => 0u8,
+        1 => 0xFFu8,
+        _ => sm.next() as u8,
+    };
+    let mut real = RealRandomness;
+    let mut idp = FixedPerms { reverse: false };
+    let mut revp = FixedPerms { reverse: true };
+    let oracle: &mut dyn Oracle = match tape {
+        Tape::Real => &mut real,
+        Tape::Identity => &mut idp,
+        Tape::Reverse => &mut revp,
+    };
+    if !three {
+        let inputs = mpcx::global_inputs(&run.in_types, &cfg.owners, plain, &mut share_bytes);
+        let verdict = match mpcx::eval_compiled_global(&run.plan, &inputs, seed, oracle) {
+            Err(m) => Err((format!("fails:{}", stable_msg(&strip_node(&m))), m)),
+            Ok(out) => mpcx::check_global_output(&out, expected, &run.out_type, &cfg.outs).map_err(|m| ("wrong".to_string(), m)),
+        };
+        CompiledResult { verdict, sends: 0, party_steps: 0, poisoned_sends: 0 }
+    } else {
+        let inputs = mpcx::party_inputs(&run.in_types, &cfg.owners, plain, &mut share_bytes, &mut junk);
+        let tr = mpcx::eval_compiled_three(
+            &run.plan,
+            &inputs,
+            [seed.wrapping_mul(3) ^ 0x11, seed.wrapping_mul(5) ^ 0x22, seed.wrapping_mul(7) ^ 0x33],
+            oracle,
+        );
+        let verdict = mpcx::check_three_output(&run.plan, &tr, expected, &run.out_type, &cfg.outs).map_err(|m| {
+            let kind = if m.contains("cannot compute") { "party-cannot-compute" } else { "wrong" };
+            (kind.to_string(), m)
+        });
+        CompiledResult { verdict, sends: tr.sends, party_steps: tr.party_steps, poisoned_sends: tr.poisoned_sends.len() as u64 }
+    }
+}
+
+/// "node 123 (Gather): error: ..." -> "(Gather): error: ..." so that signatures do not depend on node ids
+fn strip_node(m: &str) -> String {
+    match m.find('(') {
+        Some(i) if m.starts_with("node ") => m[i..].to_string(),
+        _ => m.to_string(),
+    }
+}
+
+struct CompiledWork {
+    cfg: Compiled,
+    /// sort: key index range over KeyGen::All; perm: index range into all_perms(n)
+    start: u64,
+    end: u64,
+    execs: Vec<(bool, Tape)>,
+}
+
+fn sort_expected(cols: &[Col], rows: &[u64], b: u32, single: bool) -> (Vec<Value>, Value, Vec<Vec<u128>>, Vec<usize>) {
+    let elems = table_elems(cols, rows, b);
+    let inputs = table_values(cols, &elems);
+    let order = stable_order(rows);
+    let exp_cols: Vec<Value> = cols
+        .iter()
+        .zip(elems.iter())
+        .map(|(c, e)| vals::arr_value(&permute_rows(e, c.row_size(), &order), &c.st))
+        .collect();
+    let expected = if single { exp_cols[0].clone() } else { Value::from_vector(exp_cols) };
+    (inputs, expected, elems, order)
+}
+
+fn perm_expected(n: usize, p: &[usize], inverse: bool) -> (Vec<Value>, Value) {
+    let col = perm_compiled_col();
+    let m = col.row_size();
+    let a: Vec<u128> = (0..n).flat_map(|i| (0..m).map(move |j| (i, j))).map(|(i, j)| fill(&col, i, j)).collect();
+    let pe: Vec<u128> = p.iter().map(|x| *x as u128).collect();
+    let exp = if inverse { scatter_rows(&a, m, p) } else { gather_rows(&a, m, p) };
+    (
+        vec![vals::arr_value(&a, &col.st), vals::arr_value(&pe, &ScalarType::U64)],
+        vals::arr_value(&exp, &col.st),
+    )
+}
+
+fn run_compiled_work(w: &CompiledWork, base_seed: u64) -> Out {
+    let mut o = Out::default();
+    let cfg = &w.cfg;
+    let sect = if cfg.what == "sort" { "sort-compiled" } else { "perm-compiled" };
+    let label = match (cfg.what, cfg.layout) {
+        ("sort", 11) => "Sort[i128-payload]",
+        ("sort", _) => "Sort",
+        _ => "ApplyPermutation",
+    };
+    let run = match make_runner(cfg) {
+        Ok(r) => r,
+        Err(m) => {
+            if w.start == 0 {
+                o.viol(
+                    format!("C18:{}:compiled:compile:{}:{}", label, cfg.owner_class(), stable_msg(&m)),
+                    format!("compilation of {} fails for {}: {}", label, cfg.cfg_json(), m),
+                    json!({"section": sect, "cfg": cfg.cfg_json(), "input": J::Null}),
+                );
+            }
+            return o;
+        }
+    };
+    if w.start == 0 {
+        o.c("compiled_configurations", 1);
+        o.c("compiled_nodes_total", run.nodes);
+        if cfg.what == "sort" {
+            o.c("compiled_sort_permutation_from_prf_nodes", run.perm_nodes);
+        }
+    }
+    let cols = if cfg.what == "sort" { layout(cfg.layout, cfg.b) } else { vec![] };
+    let perms = if cfg.what == "perm" { all_perms(cfg.n) } else { vec![] };
+    for k in w.start..w.end {
+        let (plain, expected, input_json) = if cfg.what == "sort" {
+            let rows = KeyGen::All.rows(k, cfg.n, cfg.b);
+            let (inputs, expected, _, _) = sort_expected(&cols, &rows, cfg.b, cfg.layout == 0);
+            (inputs, expected, json!(rows))
+        } else {
+            let p = &perms[k as usize];
+            let (inputs, expected) = perm_expected(cfg.n, p, cfg.layout == 1);
+            (inputs, expected, json!(p))
+        };
+        // the library's plaintext result must be the oracle's (the compiled result is compared with both)
+        match mpcx::eval_plain(&run.src, &plain, 1) {
+            Ok(v) if v == expected => o.c("compiled_plaintext_reference_agrees", 1),
+            other => {
+                let m = match other {
+                    Ok(v) => format!("plaintext evaluator returns {}", vals::show(&v, &run.out_type)),
+                    Err(m) => m,
+                };
+                o.viol(
+                    format!("C18:{}:plain-reference-differs", label),
+                    format!("{} input {}: plaintext evaluation differs from the oracle {}: {}", label, input_json, vals::show(&expected, &run.out_type), m),
+                    json!({"section": sect, "cfg": cfg.cfg_json(), "input": input_json, "three": false, "tape": "real", "seed": 0, "junk": 0, "plain_only": true}),
+                );
+            }
+        }
+        for (ei, (three, tape)) in w.execs.iter().enumerate() {
+            let seed = base_seed ^ hash_str(&format!("{}/{}/{}/{}", sect, cfg.cfg_json(), k, ei));
+            let junk_kind = k + ei as u64;
+            let res = exec_compiled(&run, cfg, &plain, &expected, *three, *tape, seed, junk_kind);
+            o.c("evaluations", 1);
+            let cname: &'static str = match (cfg.what, *three) {
+                ("sort", false) => "compiled_sort_global_runs",
+                ("sort", true) => "compiled_sort_three_party_runs",
+                (_, false) => "compiled_perm_global_runs",
+                (_, true) => "compiled_perm_three_party_runs",
+            };
+            o.c(cname, 1);
+            if *tape != Tape::Real {
+                o.c("compiled_runs_scripted_permutations", 1);
+            }
+            o.c("three_party_sends", res.sends);
+            o.c("three_party_steps", res.party_steps);
+            o.c("three_party_poisoned_sends", res.poisoned_sends);
+            if cfg.n >= 2 {
+                o.distinct.push(hash_str(&format!("D/{}/{}/{}/{}/{}", sect, cfg.cfg_json(), input_json, three, tape.name())));
+            }
+            let sample_cfg = (cfg.what == "sort" && cfg.layout == 10 && cfg.n == 3 && cfg.b == 2 && k == 34 && cfg.mode == "simple")
+                || (cfg.what == "perm" && cfg.n == 3 && k == 3 && cfg.layout == 1 && cfg.owners[0] == Owner::Shared);
+            if sample_cfg && ei <= 1 && (cfg.owners[0] == Owner::Shared || (cfg.owners[0] == Owner::P(0) && ei == 1)) && (cfg.what == "sort" || ei == 1) {
+                o.samples.push(json!({"section": sect, "cfg": cfg.cfg_json(), "rows": input_json, "three": three, "tape": tape.name(),
+                    "expected": vals::show(&expected, &run.out_type), "compiled_nodes": run.nodes}));
+            }
+            if let Err((kind, detail)) = res.verdict {
+                let sig = if cfg.what == "sort" && cfg.layout == 11 {
+                    // one defect (128-bit shares moved through a 64-bit gather), whatever the owners / execution mode
+                    format!("C18:Sort:compiled:128bit-payload:{}", kind)
+                } else {
+                    format!("C18:{}:compiled:{}:{}:{}", label, if *three { "three-party" } else { "global" }, cfg.owner_class(), kind)
+                };
+                o.viol(
+                    sig,
+                    format!(
+                        "compiled {} {} ({} execution, tape {}), input {}: {} (expected {})",
+                        label,
+                        cfg.cfg_json(),
+                        if *three { "three-party" } else { "global" },
+                        tape.name(),
+                        input_json,
+                        detail,
+                        vals::show(&expected, &run.out_type)
+                    ),
+                    json!({"section": sect, "cfg": cfg.cfg_json(), "input": input_json, "three": three, "tape": tape.name(),
+                           "seed": seed, "junk": junk_kind}),
+                );
+            }
+        }
+    }
+    o
+}
+
+fn compiled_work(thorough: bool) -> (Vec<(&'static str, usize, usize, u32, Vec<Owner>, Vec<u8>, &'static str)>, Vec<(bool, Tape)>, J) {
+    let mut cfgs = vec![];
+    let (nmax, bmax) = if thorough { (4usize, 3u32) } else { (3usize, 2u32) };
+    // owners of the three inputs (idx, key, pair) of layout 10
+    let mut owner_sets: Vec<(Vec<Owner>, Vec<u8>)> = vec![
+        (vec![Owner::P(0); 3], vec![1]),
+        (vec![Owner::Shared; 3], vec![2]),
+    ];
+    if thorough {
+        owner_sets.push((vec![Owner::P(1), Owner::P(2), Owner::P(1)], vec![0]));
+        owner_sets.push((vec![Owner::P(2); 3], vec![2]));
+    }
+    let modes: Vec<&'static str> = if thorough { vec!["simple", "depth-default"] } else { vec!["simple"] };
+    for n in 1..=nmax {
+        for b in 1..=bmax {
+            for (ow, outs) in owner_sets.iter() {
+                for mode in modes.iter() {
+                    // the second inline mode only for the two basic owner sets
+                    if *mode != "simple" && !(ow[0] == Owner::P(0) || ow[0] == Owner::Shared) {
+                        continue;
+                    }
+                    cfgs.push(("sort", 10usize, n, b, ow.clone(), outs.clone(), *mode));
+                }
+            }
+            // the key-only application graph (applications/sort.rs), one input
+            if n <= 3 || thorough {
+                cfgs.push(("sort", 0usize, n, b, vec![Owner::P(1)], vec![0], "simple"));
+                cfgs.push(("sort", 0usize, n, b, vec![Owner::Shared], vec![1], "simple"));
+            }
+        }
+    }
+    // quick tier: the smallest width with a short first chunk followed by a full chunk
+    if !thorough {
+        cfgs.push(("sort", 10, 2, 3, vec![Owner::P(0); 3], vec![1], "simple"));
+        cfgs.push(("sort", 10, 2, 3, vec![Owner::Shared; 3], vec![2], "simple"));
+    }
+    // wider keys (more radix rounds, short first chunk) on 2 rows: b = 4, 5 (thorough also n = 3, b = 4)
+    cfgs.push(("sort", 10, 2, 4, vec![Owner::P(0); 3], vec![1], "simple"));
+    cfgs.push(("sort", 10, 2, 5, vec![Owner::Shared; 3], vec![2], "simple"));
+    if thorough {
+        cfgs.push(("sort", 10, 2, 5, vec![Owner::P(0); 3], vec![1], "simple"));
+        cfgs.push(("sort", 10, 2, 4, vec![Owner::Shared; 3], vec![2], "simple"));
+        cfgs.push(("sort", 10, 3, 4, vec![Owner::P(0); 3], vec![1], "simple"));
+    }
+    // 128-bit payload column holding small values (its shares use all 128 bits)
+    for n in 1..=2usize {
+        cfgs.push(("sort", 11, n, 1, vec![Owner::P(0); 2], vec![1], "simple"));
+        cfgs.push(("sort", 11, n, 1, vec![Owner::Shared; 2], vec![2], "simple"));
+    }
+    // E: ApplyPermutation / inverse with a public permutation
+    let pn = if thorough { 5usize } else { 4usize };
+    for n in 1..=pn {
+        for inv in 0..2usize {
+            for (ao, outs) in [(Owner::P(0), vec![1u8]), (Owner::Shared, vec![0u8]), (Owner::Public, vec![2u8])] {
+                cfgs.push(("perm", inv, n, 0, vec![ao, Owner::Public], outs, "simple"));
+            }
+        }
+    }
+    let execs = vec![(false, Tape::Real), (true, Tape::Real), (false, Tape::Identity), (false, Tape::Reverse)];
+    let bounds = json!(format!(
+        "D: compiled Sort, all key columns for n<={} x b<={} (layout idx:u8[n], key, pair:i32[n,2]; and the key-only graph of applications/sort.rs), plus all keys for (n,b) in {}(2,4),(2,5){}; owners all-P0 / all-shared{}; output to one party; inline modes {:?}; executions: global+real randomness, three-party+real randomness, global with every PermutationFromPRF = identity, = reversal. E: compiled ApplyPermutation / inverse, public permutation, all permutations of n<={}, array owner P0 / shared / public",
+        nmax, bmax,
+        if thorough { "" } else { "(2,3)," },
+        if thorough { ",(3,4)" } else { "" },
+        if thorough { " / (P1,P2,P1) / all-P2" } else { "" },
+        modes, pn
+    ));
+    (cfgs, execs, bounds)
+}
+
+// ---------------------------------------------------------------------------------------------
+// driver
+// ---------------------------------------------------------------------------------------------
+
+pub fn run(r: &Report) -> i32 {
+    let thorough = r.tier.thorough();
+
+    // C first (smallest cases), then A, B, D/E: violations are kept smallest-first per signature
+    let mut perm_ws = vec![];
+    for n in 1..=6usize {
+        for (ci, col) in perm_array_cols().into_iter().enumerate() {
+            for (ii, ist) in PERM_INDEX_TYPES.iter().enumerate() {
+                // quick: every array type with u64 indices, every index type with the first array type
+                if !thorough && ci != 0 && ii != 0 {
+                    continue;
+                }
+                perm_ws.push(PermWork { n, col: col.clone(), ist: *ist });
+            }
+        }
+    }
+    let mut walls = serde_json::Map::new();
+    let t0 = r.elapsed();
+    let outs: Vec<Out> = perm_ws.par_iter().map(run_perm_work).collect();
+    for o in outs {
+        o.merge(r);
+    }
+    walls.insert("C_permutations".into(), json!(r.elapsed() - t0));
+
+    let (sort_ws, bounds_a) = sort_plain_work(thorough);
+    let t0 = r.elapsed();
+    let outs: Vec<Out> = sort_ws.par_iter().map(run_sort_work).collect();
+    for o in outs {
+        o.merge(r);
+    }
+    walls.insert("A_plaintext_sort".into(), json!(r.elapsed() - t0));
+
+    let (int_ws, bounds_b) = intkey_work(thorough);
+    let t0 = r.elapsed();
+    let outs: Vec<Out> = int_ws.par_iter().map(run_int_work).collect();
+    for o in outs {
+        o.merge(r);
+    }
+    walls.insert("B_sort_by_integer_key".into(), json!(r.elapsed() - t0));
+
+    let t0 = r.elapsed();
+    let (cfgs, execs, bounds_d) = compiled_work(thorough);
+    let compiled: Vec<Compiled> = cfgs
+        .par_iter()
+        .map(|(what, layout, n, b, ow, outs, mode)| compile_cfg(what, *layout, *n, *b, ow.clone(), outs.clone(), mode))
+        .collect();
+    let mut cws = vec![];
+    for cfg in compiled.iter() {
+        let size = if cfg.what == "sort" { 1u64 << (cfg.n as u32 * cfg.b) } else { all_perms(cfg.n).len() as u64 };
+        let chunk = 32u64;
+        let mut s = 0;
+        while s < size {
+            let e = (s + chunk).min(size);
+            cws.push(CompiledWork { cfg: cfg.clone(), start: s, end: e, execs: execs.clone() });
+            s = e;
+        }
+    }
+    let seed = r.seed;
+    walls.insert("D_E_compile".into(), json!(r.elapsed() - t0));
+    let t0 = r.elapsed();
+    let outs: Vec<Out> = cws.par_iter().map(|w| run_compiled_work(w, seed)).collect();
+    for o in outs {
+        o.merge(r);
+    }
+    walls.insert("D_E_compiled_runs".into(), json!(r.elapsed() - t0));
+    r.extra("section_wall_s", J::Object(walls));
+
+    r.extra("bounds", json!({
+        "A_plaintext_sort": bounds_a,
+        "B_sort_by_integer_key": bounds_b,
+        "C_permutations": "all permutations of n<=6; arrays i32[n], u64[n,2], bit[n,3], i128[n], u8[n,2,2], i16[n,1]; index types u64,u8,u16,u32 (quick: full cross only along the first array type / u64 indices); 7 outputs per graph: apply, apply-inverse, both round trips, inverse, inverse of inverse, apply of inverse",
+        "D_E_compiled": bounds_d,
+    }));
+    r.extra("oracle", json!("Rust's stable sort_by_key on (key, row index); gather out[i]=a[p[i]] for apply_permutation, scatter out[p[i]]=a[i] for apply_inverse_permutation, out[p[j]]=j for inverse_permutation"));
+
+    r.finish(
+        "exploration",
+        "a case = (section, graph layout / types, n, key width, key column | permutation, and for compiled graphs configuration x execution mode x tape); counted as distinct non-trivial when the table / permutation has at least 2 rows",
+        true,
+        &[
+            "apply_permutation(a,p)[i] = a[p[i]] (gather convention of mpc_apply_permutation.rs and of the repo's own test); apply_inverse_permutation is its inverse; inverse_permutation as documented: output[i]=j iff input[j]=i",
+            "128-bit payload columns of the main layouts carry small non-negative values; full-width 128-bit payloads are exercised separately (layouts 4, 5, 11, permutation arrays w_i128 / w_u128x2) and reproduce the recorded findings about evaluate_gather keeping only 64 bits",
+            "compiled ApplyPermutation is checked with a public permutation only: a permutation owned by one party / additively shared is outside the contract of ApplyPermutationMPC (private permutations are compositions p0*p1*p2; the repo's test helper says 'Party input not supported')",
+            "compiled runs use real PRF/PRNG randomness with seeds derived from VERIF_SEED and the case, plus two scripted tapes for PermutationFromPRF (identity, reversal)",
+            "for key widths > 5 with 3 rows (and > 8 with 2 rows) the key rows range over an explicit alphabet, not over all bit strings",
+        ],
+        &[
+            "evaluations",
+            "sort_plain_cases",
+            "sort_plain_dup_and_unsorted",
+            "sort_plain_odd_width",
+            "intkey_cases",
+            "intkey_signed_mixed_sign",
+            "perm_not_self_inverse",
+            "compiled_sort_global_runs",
+            "compiled_sort_three_party_runs",
+            "compiled_sort_permutation_from_prf_nodes",
+            "compiled_perm_three_party_runs",
+            "compiled_plaintext_reference_agrees",
+            "three_party_sends",
+        ],
+    )
+}
+
+// ---------------------------------------------------------------------------------------------
+// replay
+// ---------------------------------------------------------------------------------------------
+
+fn u64s(j: &J) -> Vec<u64> {
+    j.as_array().map(|a| a.iter().filter_map(|x| x.as_u64()).collect()).unwrap_or_default()
+}
+
+pub fn replay(_r: &Report, rec: &J) -> i32 {
+    let case = &rec["case"];
+    let section = case["section"].as_str().unwrap_or("");
+    let verdict: Result<(), (String, String)> = match section {
+        "sort-plain" => {
+            let layout_id = case["layout"].as_u64().unwrap_or(1) as usize;
+            let n = case["n"].as_u64().unwrap_or(1) as usize;
+            let b = case["b"].as_u64().unwrap_or(1) as u32;
+            match build_sort_ctx(layout_id, n, b) {
+                Err(m) => Err(("build".into(), m)),
+                Ok(ctx) => {
+                    let rows = u64s(&case["rows"]);
+                    println!("plaintext Sort layout {} n={} b={} key rows {:?}; stable order {:?}", layout_id, n, b, rows, stable_order(&rows));
+                    sort_plain_case(&ctx, layout_id, &layout(layout_id, b), &rows, b)
+                }
+            }
+        }
+        "intkey" => {
+            let variant = case["variant"].as_u64().unwrap_or(1) as usize;
+            let st = st_by_name(case["st"].as_str().unwrap_or("u8")).unwrap_or(ScalarType::U8);
+            let n = case["n"].as_u64().unwrap_or(1) as usize;
+            match build_intkey_ctx(variant, n, st) {
+                Err(m) => Err(("build".into(), m)),
+                Ok(ctx) => {
+                    let keys: Vec<u128> = case["keys"]
+                        .as_array()
+                        .map(|a| a.iter().filter_map(|x| x.as_str().and_then(|s| s.parse().ok())).collect())
+                        .unwrap_or_default();
+                    println!("SortByIntegerKey variant {} key type {} key residues {:?}; stable order {:?}", variant, st_name(&st), keys, int_order(&keys, &st));
+                    intkey_case(&ctx, variant, &st, &keys)
+                }
+            }
+        }
+        "perm" => {
+            let n = case["n"].as_u64().unwrap_or(1) as usize;
+            let cname = case["col"].as_str().unwrap_or("a_i32");
+            let col = perm_array_cols().into_iter().find(|c| c.name == cname).unwrap_or_else(|| perm_array_cols()[0].clone());
+            let ist = st_by_name(case["index_type"].as_str().unwrap_or("u64")).unwrap_or(ScalarType::U64);
+            match build_perm_ctx(n, &col, ist) {
+                Err(m) => Err(("build".into(), m)),
+                Ok(ctx) => {
+                    let p: Vec<usize> = u64s(&case["p"]).iter().map(|x| *x as usize).collect();
+                    println!("permutation graph on {} with index type {}, p = {:?}", col.ty(n), st_name(&ist), p);
+                    perm_case(&ctx, &col, &ist, &p)
+                }
+            }
+        }
+        "sort-compiled" | "perm-compiled" => {
+            let c = &case["cfg"];
+            let what: &'static str = if c["what"].as_str() == Some("sort") { "sort" } else { "perm" };
+            let owners: Vec<Owner> = c["owners"].as_array().map(|a| a.iter().map(|x| owner_by_name(x.as_str().unwrap_or(""))).collect()).unwrap_or_default();
+            let outs: Vec<u8> = u64s(&c["outs"]).iter().map(|x| *x as u8).collect();
+            let mode: &'static str = match c["mode"].as_str() {
+                Some("depth-default") => "depth-default",
+                Some("depth-extreme") => "depth-extreme",
+                _ => "simple",
+            };
+            let cfg = compile_cfg(
+                what,
+                c["layout"].as_u64().unwrap_or(0) as usize,
+                c["n"].as_u64().unwrap_or(1) as usize,
+                c["b"].as_u64().unwrap_or(0) as u32,
+                owners,
+                outs,
+                mode,
+            );
+            println!("compiled {} configuration {}", what, cfg.cfg_json());
+            match make_runner(&cfg) {
+                Err(m) => Err(("compile".into(), m)),
+                Ok(run) => {
+                    let input = u64s(&case["input"]);
+                    let (plain, expected) = if what == "sort" {
+                        let (i, e, _, _) = sort_expected(&layout(cfg.layout, cfg.b), &input, cfg.b, cfg.layout == 0);
+                        (i, e)
+                    } else {
+                        let p: Vec<usize> = input.iter().map(|x| *x as usize).collect();
+                        perm_expected(cfg.n, &p, cfg.layout == 1)
+                    };
+                    println!("input {:?}; expected output {}", input, vals::show(&expected, &run.out_type));
+                    if case["plain_only"].as_bool() == Some(true) {
+                        match mpcx::eval_plain(&run.src, &plain, 1) {
+                            Ok(v) if v == expected => Ok(()),
+                            Ok(v) => Err(("plain-reference-differs".into(), format!("plaintext evaluator returns {}", vals::show(&v, &run.out_type)))),
+                            Err(m) => Err(("plain-reference-differs".into(), m)),
+                        }
+                    } else {
+                        let three = case["three"].as_bool().unwrap_or(false);
+                        let tape = Tape::by_name(case["tape"].as_str().unwrap_or("real"));
+                        let seed = case["seed"].as_u64().unwrap_or(0);
+                        let junk = case["junk"].as_u64().unwrap_or(0);
+                        exec_compiled(&run, &cfg, &plain, &expected, three, tape, seed, junk).verdict
+                    }
+                }
+            }
+        }
+        other => {
+            println!("MACHINERY-ERROR property=C18 unknown replay section '{}'", other);
+            return 2;
+        }
+    };
+    match verdict {
+        Ok(()) => {
+            println!("observed = expected: the violation does NOT reproduce");
+            0
+        }
+        Err((kind, detail)) => {
+            println!("REPRODUCED [{}]: {}", kind, detail);
+            1
+        }
+    }
 }
